@@ -81,6 +81,7 @@ template<typename A, typename V> static decltype(auto) pass(V &v) {
 }
 
 RoutingKey buildKey(const std::string &pat);      // rt_main.cpp
+std::string decodeName(std::string n);            // rt_main.cpp
 std::string showKey(const std::string &pat);     // rt_main.cpp
 
 // ---------------------------------------------------------------- sessions
@@ -164,7 +165,7 @@ struct Session : ISession {
                 for (auto &p : level) for (auto &n : names) { auto q = p; q.push_back(n); next.push_back(q); }
                 for (auto &k : next) {
                     RoutingKeyBuilder b;
-                    for (auto &n : k) b.level(n);
+                    for (auto &n : k) b.level(decodeName(n));
                     bits += router.exists(b.build()) ? "1" : "0";
                 }
                 level = std::move(next);
